@@ -73,3 +73,25 @@ def classify_exc(e: BaseException) -> str:
             return "LookupError"
         return "ValidationError"
     return "Crash:" + type(e).__name__
+
+
+def enc_list(xs):
+    """lists travel as elements each preceded by U+001F"""
+    return "".join("\x1f" + x for x in xs)
+
+
+def impl_pybind(text, tpl, module_name, top, boost, ignore, subs):
+    """the real generator, in-process; returns ('ok', text) | ('err', kind)"""
+    from gtwrap.pybind_wrapper import PybindWrapper
+    try:
+        w = PybindWrapper(module_name=module_name, top_module_namespaces=list(top), use_boost_serialization=boost,
+                          ignore_classes=list(ignore), module_template=tpl)
+        out = w.wrap_file(text, module_name=module_name, submodules=None if subs is None else list(subs))
+        return ("ok", out)
+    except Exception as e:  # noqa
+        return ("err", classify_exc(e))
+
+
+def model_pybind(driver, text, tpl, module_name, top, boost, ignore, subs):
+    return driver.call("pybind", text, tpl, module_name, enc_list(top), "1" if boost else "0", enc_list(ignore),
+                       "-" if subs is None else enc_list(subs))
